@@ -138,22 +138,45 @@ def model_exe(area):
     return os.path.join(LEAN, ".lake", "build", "bin", "m_" + area)
 
 
+def module_closure(modules):
+    """files of the given Cstl.* modules and everything under Cstl/ they import, transitively"""
+    seen = {}
+    todo = list(modules)
+    while todo:
+        mod = todo.pop()
+        if mod in seen or not mod.startswith("Cstl"):
+            continue
+        path = os.path.join(LEAN, mod.replace(".", "/") + ".lean")
+        if not os.path.exists(path):
+            seen[mod] = None
+            continue
+        seen[mod] = path
+        for line in open(path):
+            m = re.match(r"\s*import\s+([A-Za-z0-9_.]+)", line)
+            if m:
+                todo.append(m.group(1))
+    return [p for p in seen.values() if p]
+
+
 def grep_forbidden(modules):
-    """Scan the Lean sources of the given modules (and everything under Cstl/)
-    for escape hatches; hits inside comments are discarded."""
+    """Scan the Lean sources the property depends on (the given modules and
+    their transitive Cstl.* imports; everything under Cstl/ when modules is
+    None) for escape hatches; hits inside comments are discarded."""
     hits = []
-    for root, _, files in os.walk(os.path.join(LEAN, "Cstl")):
-        for f in files:
-            if not f.endswith(".lean"):
-                continue
-            p = os.path.join(root, f)
-            txt = open(p).read()
-            # strip block comments (non-nested is enough for our files) and line comments
-            txt2 = re.sub(r"/-.*?-/", lambda m: "\n" * m.group(0).count("\n"), txt, flags=re.S)
-            for ln, line in enumerate(txt2.split("\n"), 1):
-                line = line.split("--")[0]
-                if FORBIDDEN.search(line):
-                    hits.append("%s:%d: %s" % (os.path.relpath(p, LEAN), ln, line.strip()))
+    if modules is None:
+        files = []
+        for root, _, fs in os.walk(os.path.join(LEAN, "Cstl")):
+            files += [os.path.join(root, f) for f in fs if f.endswith(".lean")]
+    else:
+        files = module_closure(modules)
+    for p in sorted(files):
+        txt = open(p).read()
+        # strip block comments (non-nested is enough for our files) and line comments
+        txt2 = re.sub(r"/-.*?-/", lambda m: "\n" * m.group(0).count("\n"), txt, flags=re.S)
+        for ln, line in enumerate(txt2.split("\n"), 1):
+            line = line.split("--")[0]
+            if FORBIDDEN.search(line):
+                hits.append("%s:%d: %s" % (os.path.relpath(p, LEAN), ln, line.strip()))
     return hits
 
 
@@ -523,7 +546,7 @@ def prepare_area(chk, area, theorems=None, leanchecker=False):
     if not ok:
         errs = [l for l in out.split("\n") if "error" in l][:5]
         chk.build_problems.append(("lake build %s" % " ".join(area.LEAN_TARGETS), " | ".join(errs) or out[-500:]))
-    for h in grep_forbidden(None):
+    for h in grep_forbidden(list(area.IMPORTS) + [t for t in area.LEAN_TARGETS if t.startswith("Cstl.")] + ["Cstl.%s.Main" % os.path.basename(os.path.dirname(os.path.join(LEAN, area.IMPORTS[0].replace(".", "/"))))]):
         if h not in chk.forbidden:
             chk.forbidden.append(h)
     thms = theorems if theorems is not None else area.THEOREMS.get(chk.prop, [])
@@ -543,8 +566,13 @@ def prepare_area(chk, area, theorems=None, leanchecker=False):
     return c_exe, m_exe
 
 
-def run_scripts(chk, area, c_exe, m_exe, scripts, oracle=None, batch=20000):
+def run_scripts(chk, area, c_exe, m_exe, scripts, oracle=None, batch=4000):
     for i in range(0, len(scripts), batch):
+        if len(chk.oracle_failures) >= 20:
+            # the verdict is settled (concrete failing inputs found); do not
+            # spend time on further exploration of a broken implementation
+            chk.notes.append("exploration stopped early after %d failing inputs" % len(chk.oracle_failures))
+            return
         part = scripts[i:i + batch]
         c, m = run_pair(c_exe, m_exe, part, jobs=int(os.environ.get("VERIF_JOBS", "8")))
         chk.compare(area.NAME, part, c, m, oracle)
